@@ -13,8 +13,8 @@ def NOT_REPRODUCED(msg=''):
     print('not reproduced', msg); sys.exit(0)
 
 
-p = Path(CubicBezier((0.25+0.25j), (0.25+0.25j), (0.5+0j), (0.25+0.25j)), CubicBezier((0.25+0.25j), 0.5j, 0j, (0.5+0j)), Line((0.5+0j), (0.25+0.25j)))
-opts = dict(useSandT=True, use_closed_attrib=True, rel=False)
+p = Path(CubicBezier((-40-40j), (-40-40j), (-40+0j), 1j), CubicBezier(1j, 1j, (-40+0j), 2j), Line((-40+1j), (-40-40j)))
+opts = dict(useSandT=True, use_closed_attrib=False, rel=False)
 d = p.d(**opts)
 try:
     q = parse_path(d)
